@@ -42,6 +42,14 @@ class NeedBool(Exception):
         self.name = name
 
 
+class NeedRole(Exception):
+    """The code compares / uses an ordered term that no role binds: add a free role and re-enumerate."""
+
+    def __init__(self, role: "Role", why: str):
+        self.role = role
+        self.why = why
+
+
 class _Return(Exception):
     def __init__(self, value):
         self.value = value
@@ -587,6 +595,10 @@ class Interp:
             if l[0] == BOOL and r[0] == BOOL and op in ("==", "!="):
                 return (BOOL, (l[1] == r[1]) == (op == "=="))
             if (l[0] == ORD) != (r[0] == ORD):
+                other, onode, known = (r, e.r, l) if l[0] == ORD else (l, e.l, r)
+                if other[0] == SYM and other[1] and not other[1].startswith("<"):
+                    raise NeedRole(Role(f"?{other[1]}", known[1], re.escape(other[1]), required=False),
+                                   f"comparison with unbound term {other[1]}")
                 raise AnalysisError("model-mismatch",
                                     f"K1: comparison of a role with an unbound term: {env.canon(e)} at {self.fa.loc(e)}")
             # symbolic comparison -> canonical boolean atom
@@ -644,6 +656,9 @@ class Interp:
                 if self.ranks.get(b.name) == base[2]:
                     self.bound_roles.add(r.name)
                     return (ORD, r.sort, self.ranks[r.name])
+        for r in self.roles:
+            if r.sort == base[1] and r.succ_of is None and r.sentinel != "max" and self.ranks.get(r.name) == base[2]:
+                raise NeedRole(Role(f"{r.name}+1", r.sort, None, succ_of=r.name, required=False), f"successor term {canon}")
         raise AnalysisError("model-mismatch", f"K1: successor term {canon} has no role")
 
     def _assign(self, e: C.Binary, env: "Env"):
@@ -890,6 +905,7 @@ class K1Result:
     sample_rows: List[str] = field(default_factory=list)
     bound_roles: List[str] = field(default_factory=list)
     atoms: List[str] = field(default_factory=list)
+    dynamic_roles: List[str] = field(default_factory=list)
 
 
 def _val_repr(v) -> str:
@@ -908,7 +924,29 @@ def run_table(interp: Interp, spec: Callable[[View], Expect], *, unit: Optional[
               prelude: Optional[Sequence[C.Node]] = None,
               feasible: Optional[Callable[[View], bool]] = None,
               max_cases: int = 400000) -> K1Result:
-    """Enumerate all orderings x boolean forks; compare code outcome with spec."""
+    """Enumerate all orderings x boolean forks; compare code outcome with spec.
+
+    Ordered terms the role table does not bind are added as free roles (at most 3) and the enumeration restarts:
+    the specified table cannot depend on them, so any dependence of the code's outcome on such a term shows up
+    as a mismatch with a witness ordering."""
+    added = 0
+    while True:
+        try:
+            res = _run_table(interp, spec, unit=unit, prelude=prelude, feasible=feasible, max_cases=max_cases)
+            res.dynamic_roles = [r.name for r in interp.roles if r.name.startswith("?") or r.name.endswith("+1")]
+            return res
+        except NeedRole as nr:
+            if added >= 3 or nr.role.name in interp.role_by_name:
+                raise AnalysisError("model-mismatch", f"K1: {nr.why} (no role; dynamic role limit reached)")
+            added += 1
+            interp.roles.append(nr.role)
+            interp.role_by_name[nr.role.name] = nr.role
+
+
+def _run_table(interp: Interp, spec: Callable[[View], Expect], *, unit: Optional[C.Node] = None,
+               prelude: Optional[Sequence[C.Node]] = None,
+               feasible: Optional[Callable[[View], bool]] = None,
+               max_cases: int = 400000) -> K1Result:
     res = K1Result()
     roles = interp.roles
     sorts: Dict[str, List[Role]] = {}
